@@ -24,7 +24,7 @@ def bare_token_alts(group):
     return names if len(set(names)) == len(names) else None
 
 
-def run(ctx, rep, rid="R-C01-choiceid"):
+def run(ctx, rep, rid="R-C01-choiceid", only=None):
     r = rep.rule(rid, "a labelled choice of different bare tokens is used by its action as a value (which token matched), not only through is_some()/is_none()",
                  floor=0, floor_what="labelled token choices")
     g = ctx.peg
@@ -34,7 +34,7 @@ def run(ctx, rep, rid="R-C01-choiceid"):
             if not e.label or e.prim.kind != "group":
                 continue
             names = bare_token_alts(e.prim)
-            if not names:
+            if not names or (only and not only(rule)):
                 continue
             n += 1
             inst = "rule %s|%s:(%s)" % (rule.name, e.label, " / ".join(names))
@@ -44,7 +44,27 @@ def run(ctx, rep, rid="R-C01-choiceid"):
             if not uses:
                 r.finding(inst + "|unused", where, "the matched alternative is captured and never used: %s give one tree" % " and ".join(names))
                 continue
-            only_presence = all(re.match(r"\s*\.\s*(is_some|is_none)\s*\(", code[u:]) for u in uses)
+            def presence_only(u):
+                if re.match(r"\s*\.\s*(is_some|is_none)\s*\(", code[u:]):
+                    return True
+                # `match x { Some(name) => .. }` / `if let Some(name) = x`: a use of the value only if `name` is used
+                before = code[:u - len(e.label)]
+                m1 = re.search(r"(match)\s*$", before)
+                m2 = re.search(r"(?:if|while)\s+let\s+Some\s*\(\s*(\w+)\s*\)\s*=\s*$", before)
+                names = []
+                if m1:
+                    names = re.findall(r"Some\s*\(\s*(\w+)\s*\)\s*=>", code[u:])
+                    if not names:
+                        return False
+                elif m2:
+                    names = [m2.group(1)]
+                else:
+                    return False
+                for nm in names:
+                    if nm != "_" and len(re.findall(r"(?<![A-Za-z0-9_.])%s\b" % re.escape(nm), code)) > 1:
+                        return False
+                return True
+            only_presence = all(presence_only(u) for u in uses)
             if only_presence:
                 r.finding(inst + "|presence-only", where, "the action only asks whether `%s` matched (is_some/is_none), not which alternative: %s are read as the same thing" % (e.label, " and ".join(names)))
             else:
